@@ -73,11 +73,20 @@ CheckOptRun(e) ==
      ELSE IF ~mustStop /\ e.exit # "finished" THEN "spurious_too_few_realizations"
      ELSE "ok"
 
-Check(e) == IF e.ev = "OptRun" THEN CheckOptRun(e) ELSE CheckGrad(e)
+\* a function evaluation in which one successful realization returns an INFINITE first objective: a value, not a failure -
+\* the failed flags are those of the NaN rows
+CheckInfFlags(e) ==
+  IF e.outcome \notin {"ok", "toofew"} \/ Len(e.failedObs) = 0 THEN "ok"        \* nothing was reported to judge
+  ELSE IF Len(e.failedObs) # e.R THEN "failed_flags"
+  ELSE IF \E r \in 1..e.R : e.failedObs[r] /\ e.nanF[r] = 0 THEN "infinite_value_flagged_as_failed"
+  ELSE IF \E r \in 1..e.R : ~e.failedObs[r] /\ e.nanF[r] # 0 THEN "failed_flags"
+  ELSE "ok"
+
+Check(e) == IF e.ev = "OptRun" THEN CheckOptRun(e) ELSE IF e.ev = "InfFlags" THEN CheckInfFlags(e) ELSE CheckGrad(e)
 
 Init == tid \in 1..Len(Traces) /\ l = 1 /\ verdict = "ok"
 Next == /\ verdict = "ok" /\ l <= Len(Traces[tid])
-        /\ verdict' = IF Traces[tid][l].ev \notin {"GradEval", "OptRun"} THEN "unknown_event" ELSE Check(Traces[tid][l])
+        /\ verdict' = IF Traces[tid][l].ev \notin {"GradEval", "OptRun", "InfFlags"} THEN "unknown_event" ELSE Check(Traces[tid][l])
         /\ l' = IF verdict' = "ok" THEN l + 1 ELSE l
         /\ UNCHANGED tid
 Report == (verdict # "ok" \/ l = Len(Traces[tid]) + 1) =>
